@@ -4,6 +4,7 @@ package main
 
 import (
 	"fmt"
+	"os"
 	"sort"
 	"strings"
 
@@ -314,14 +315,16 @@ func (e *Engine) mergeStates(sts []*State, extras [][]Val) (*State, []Val) {
 				var alts []RefAlt
 				ok := true
 				same := true
+				for _, v := range vs {
+					if v.ref(k) != vs[0].ref(k) {
+						same = false
+					}
+				}
 				for i, v := range vs {
 					r := v.ref(k)
 					if r == nil || (r.Fn == nil && len(r.Alts) == 0) {
 						ok = false
 						break
-					}
-					if r != vs[0].ref(k) {
-						same = false
 					}
 					if len(r.Alts) > 0 {
 						for _, a := range r.Alts {
@@ -368,6 +371,9 @@ func (e *Engine) mergeStates(sts []*State, extras [][]Val) (*State, []Val) {
 			continue
 		}
 		m.cells[c] = mergeVal(vs)
+		if os.Getenv("GOVC_DEBUG_MERGE") == c.name {
+			fmt.Fprintf(os.Stderr, "merge cell %s: %v -> %v\n", c.name, vs, m.cells[c].L)
+		}
 	}
 	// heap arrays
 	allHeap := map[string]bool{}
